@@ -1,30 +1,32 @@
 (* C02 - find traversal: every in-range entry visited exactly once under -P/-H/-L.
-   [walk c P n] (Model/Walk.v) is walkdir's IntoIter stack machine driven by process_dir, on the
+   [walk c P n] (Model/Walk.v) is walkdir's IntoIter stack machine (always run in pre-order, without a depth
+   floor) driven by process_dir, which filters -mindepth and produces the -depth order itself, on the
    tree [n] as the follow mode unfolds it (Leaf = non-directory or unfollowed link, Dang = dangling
    link under a follow mode, Bad = unreadable directory or link closing a cycle, Dir = directory
    or followed link to one).  The unfolding itself is the correspondence check's job. *)
-Require Import Walk WalkPre WalkPost WalkSpec.
+Require Import Walk WalkPre WalkSpec WalkDefer.
 From Coq Require Import List Arith Bool.
 Import ListNotations.
 
 (* Without -prune the walk reports exactly the entries of the complete depth-first listing of the
    tree whose depth lies in [mindepth, maxdepth] - each exactly once, in that order, nothing
    else - and diagnoses (Err) each unreadable entry it reaches without losing a sibling. *)
-Theorem C02_every_entry_once : forall c n, mind c <= maxd c ->
+Theorem C02_every_entry_once : forall c n,
   walk c noP n = filter (keep c) (if post c then nodes_post [] n else nodes [] n).
 Proof. exact walk_every_entry_once. Qed.
 Print Assumptions C02_every_entry_once.
 
-(* mindepth > maxdepth: nothing at all *)
-Theorem C02_empty_range : forall c P n, maxd c < mind c -> walk c P n = [].
+(* mindepth > maxdepth: nothing at all is evaluated; what cannot be read is still diagnosed *)
+Theorem C02_empty_range : forall c P n, maxd c < mind c ->
+  Forall (fun e => match e with Err _ => True | _ => False end) (walk c P n).
 Proof. exact walk_empty_range. Qed.
 Print Assumptions C02_empty_range.
 
 (* the stack machine is the recursive depth-first traversal, for every tree, bound and prune set *)
-Theorem C02_walk_is_dfs : forall c P n, mind c <= maxd c ->
+Theorem C02_walk_is_dfs : forall c P n,
   walk c P n = if post c then posto c [] 0 n else pre c P [] 0 n.
 Proof.
-  intros c P n H. destruct (post c) eqn:E; [exact (walk_post c P n E H)|exact (walk_pre c P n E H)].
+  intros c P n. destruct (post c) eqn:E; [exact (walk_post c P n E)|exact (walk_pre c P n E)].
 Qed.
 Print Assumptions C02_walk_is_dfs.
 
@@ -33,5 +35,6 @@ Example C02_witness :
   let t := Dir [(1, Dir [(11, Leaf); (12, Dang)]); (2, Bad); (3, Leaf)] in
   let c := {| mind := 1; maxd := 2; post := false |} in
   walk c noP t = [Ent [1] 1 true; Ent [11; 1] 2 false; Ent [12; 1] 2 false; Err [2]; Ent [3] 1 false]
-  /\ walk {| mind := 3; maxd := 1; post := false |} noP t = [].
-Proof. vm_compute. split; reflexivity. Qed.
+  /\ walk {| mind := 3; maxd := 1; post := false |} noP t = [Err [2]]
+  /\ walk {| mind := 1; maxd := 2; post := true |} noP t = [Ent [11; 1] 2 false; Ent [12; 1] 2 false; Ent [1] 1 true; Err [2]; Ent [3] 1 false].
+Proof. vm_compute. repeat split; reflexivity. Qed.
